@@ -69,6 +69,33 @@ fn check_seq(c: &SeqCase, obs: &mut Obs) -> Verdict {
     if let Err(m) = judge_ops(&ops, &c.old, c.old_r(), &c.new, c.new_r()) {
         return Verdict::Fail(format!("{} mode {} k {:?}: {}", alg_name(c.alg), c.mode, k, m));
     }
+    if k.is_none() && c.mode % 3 == 0 {
+        // different item types on the two sides (new: PartialEq<old>, hashing differently): the ops
+        // depend on the equality pattern only
+        let oa: Vec<u64> = c.old.iter().map(|x| *x as u64).collect();
+        let na: Vec<crate::oracle::items::Id32> = c.new.iter().map(|x| crate::oracle::items::Id32(*x)).collect();
+        match guard(|| similar::capture_diff(alg_of(c.alg), &oa[..], c.old_r(), &na[..], c.new_r())) {
+            Ok(o) if o == ops => {}
+            Ok(o) => return Verdict::Fail(format!("{}: old items u64 / new items Id32 (PartialEq<u64>, unrelated Hash) give {:?}, u32 items give {:?}", alg_name(c.alg), o, ops)),
+            Err(p) => return Verdict::Fail(format!("capture_diff over different item types: {}", p)),
+        }
+    }
+    if k.is_none() && c.mode % 3 == 1 && !c.old.is_empty() {
+        // old and new are two windows of ONE buffer that start at the same address (e.g. a log and
+        // its earlier, shorter state)
+        let buf = &c.old;
+        let (i, j) = (c.or.1.min(buf.len()), c.nr.1.min(buf.len()));
+        let (a, b) = (&buf[..i], &buf[..j]);
+        match guard(|| similar::capture_diff_slices(alg_of(c.alg), a, b)) {
+            Ok(o) => {
+                if let Err(m) = judge_ops(&o, a, 0..a.len(), b, 0..b.len()) {
+                    return Verdict::Fail(format!("{}: capture_diff_slices over the prefixes ..{} and ..{} of ONE buffer {:?}: {}", alg_name(c.alg), i, j, buf, m));
+                }
+            }
+            Err(p) => return Verdict::Fail(format!("capture_diff_slices over two prefixes of one buffer: {}", p)),
+        }
+        obs.class("two prefixes of one buffer");
+    }
     if k.is_none() {
         // the deadline-taking twins called without a deadline are the same functions
         let twins = guard(|| {
@@ -186,7 +213,7 @@ impl Prop for C02 {
     type Case = Case;
     const ID: &'static str = "C02";
     fn rule() -> String {
-        "cases = Seq(algorithm, old, new, ranges, entry point in {capture_diff(_deadline), capture_diff_slices(_deadline) on extracted slices, IdentifyDistinct offset lookups}, deadline in {none, virtual clock expiring at probe k}) | Text(old, new, tokenizer, algorithm, str/[u8]); enumeration of all pairs over {0,1,2} x {no deadline, k=0,1,2} plus proptest mixture. Oracle: primary-index walk, element equality of Equal ops, apply/invert round trip, identical inputs => only Equal ops, ratio in 0..=1 and ==1 iff equal. Non-trivial = at least 2 ops including a change; distinct = distinct serialized case.".into()
+        "cases = Seq(algorithm, old, new, ranges, entry point in {capture_diff(_deadline), capture_diff_slices(_deadline) on extracted slices, IdentifyDistinct offset lookups}, deadline in {none, virtual clock expiring at probe k}) | Text(old, new, tokenizer, algorithm, str/[u8]); enumeration of all pairs over {0,1,2} x {no deadline, k=0,1,2} plus proptest mixture. Deadline-free Seq cases are also diffed with different item types on the two sides (same ops required) and, for the slice entry point, as two prefixes of ONE buffer. Oracle: primary-index walk, element equality of Equal ops, apply/invert round trip, identical inputs => only Equal ops, ratio in 0..=1 and ==1 iff equal. Non-trivial = at least 2 ops including a change; distinct = distinct serialized case.".into()
     }
     fn assumptions() -> Vec<String> {
         vec![
